@@ -40,7 +40,7 @@ CHECKS = {
              ref='3/C11'),
  'C13': dict(engine='X', technique='symbolic execution (CrossHair/z3) of the real calc_file_signatures with as_completed modelled as an arbitrary (symbolic) permutation and stub executors',
              text='For 1..4 (quick) / 5 (thorough) files, every completion permutation, every position of a failing file, every concurrency mode and executor ownership, '
-                  'CrossHair confirms over all paths that entry i is the signature of file i, that failures propagate, and that executor lifetimes are respected.',
+                  'CrossHair confirms over all paths that entry i is the signature of file i, that failures propagate, and that executor lifetimes are respected; pooled conditions cover batches of up to 3000 files and histories of three batches on real files (failed batches, re-used executors, changed file contents) with nothing stubbed.',
              note='Trusted: CrossHair path exhaustion; the executor/as_completed contract stubs.  Real pools and pickling are outside.',
              ref='3/C13'),
  'C04': dict(engine='X', technique='CrossHair/z3-driven exhaustive case split over signature-ID arrangements, identifier attributes and directory contents on the real ReferenceDatabase / genomes_by_id / locate_files / query code (in-memory SQLite, tagging distance stub)',
@@ -59,10 +59,10 @@ CHECKS = {
                   'invariance hold for every byte string within the bound; gzip is chosen iff the header is 1f 8b regardless of the name.',
              note='Trusted: as C01; open/gzip/TextIOWrapper replaced by tagging stubs in the K part; in the X part only `open` is replaced (in-memory files).  File-level claims are bounded-exhaustive over pools of genomes and forms.',
              ref='3/C06'),
- 'C02': dict(engine='K', technique='bounded model checking: metric.pyx + gambit.metric translated to SMT (QF_BV merge stage per dtype pair and length bound, QF_FP float stage over all N,M,u < 2^24), z3 + cvc5',
+ 'C02': dict(engine='KX', technique='bounded model checking: metric.pyx + gambit.metric translated to SMT (QF_BV merge stage per dtype pair and length bound, QF_FP float stage over all N,M,u < 2^24), z3 + cvc5; plus one CrossHair/z3-enumerated pool condition running the real functions on strongly unbalanced array pairs beyond the symbolic length bound',
              text='For every pair of sorted duplicate-free arrays up to the length bound, in every accepted dtype pair, the merge loop of the current '
                   'metric.pyx ends with (N,M,u) = (|a|,|b|,|a or b|) with all reads in bounds; for every such triple below 2^24 the returned float32 '
-                  'is bit-identical to the exact quotient rounded once.  Counterexamples are replayed on the real kernel.',
+                  'is bit-identical to the exact quotient rounded once (jaccard() = 1 - that); every early return of the Python layer must return the same value.  Pooled: 0-2 against 17 / 40 / 100 elements, all 36 dtype pairs, values at the top of the common range and around 2^53.  Counterexamples are replayed on the real kernel.',
              note='Trusted: z3/cvc5, kbmc translator and C typing rules (validated against the compiled module), the assume-guarantee cut after the merge loop, specs/jaccard_spec.py.',
              ref='3/C02'),
  'C14': dict(engine='X', technique='CrossHair/z3-driven exhaustive case split over the option and parameter space of the real click callbacks (dist, query, signatures create, tree) with recording stubs; end-to-end CLI replay',
